@@ -131,7 +131,7 @@ func loadProgram(patterns []string, overlay map[string][]byte) (*Exec, error) {
 			if strings.HasPrefix(filepath.Base(f), "zz_verif_contracts") {
 				pc := x.contracts[p.PkgPath]
 				if pc == nil {
-					pc = &PkgContracts{pkg: p.PkgPath, funcs: map[string]*FuncContract{}, ifaces: map[string]*FuncContract{}, imports: map[string]string{}, macros: map[string]*Macro{}}
+					pc = &PkgContracts{pkg: p.PkgPath, funcs: map[string]*FuncContract{}, ifaces: map[string]*FuncContract{}, imports: map[string]string{}, macros: map[string]*Macro{}, chans: map[string]*Clause{}}
 					x.contracts[p.PkgPath] = pc
 				}
 				src, ok := overlay[f]
@@ -360,6 +360,8 @@ func runCheck(o checkOpts) (int, *checkOutcome) {
 	bySolver := map[string]int{}
 	replayDir := filepath.Join(verifDir, "replays", o.prop)
 	knownSeen := map[string]bool{}
+	var knownGone []string
+	var knownObls []any
 	for i, r := range results {
 		ob := obls[i]
 		solverMs += r.Ms
@@ -371,6 +373,14 @@ func runCheck(o checkOpts) (int, *checkOutcome) {
 			}
 		} else {
 			ok = r.Status == "unsat" || r.Status == "trivial"
+		}
+		if kf, isK := known[r.Name]; isK && kf.Witness == "" {
+			// known finding identified by its obligation (call site / clause): not counted, never an alarm
+			if ok {
+				knownGone = append(knownGone, r.Name)
+			}
+			knownObls = append(knownObls, map[string]any{"obligation": r.Name, "status": r.Status, "what": kf.What})
+			continue
 		}
 		total++
 		if ok {
@@ -472,6 +482,8 @@ func runCheck(o checkOpts) (int, *checkOutcome) {
 			"failed_obligations": failedNames,
 			"notes":              sortedSet(x.notes),
 			"not_covered":        cfg.NotCovered,
+			"known_finding_obligations": knownObls,
+			"known_findings_no_longer_failing": knownGone,
 			"bounded_standins":   cfg.Bounded,
 			"integer_semantics":  "fixed-width bit-vectors of the exact Go width (wrap-around), no mathematical integers",
 			"explanation":        "weakest-precondition style VCs generated from go/ssa of /repo's working tree by symbolic path execution; contracts in zz_verif_contracts.go (build tag verif); each named obligation aggregates all paths reaching it",
